@@ -45,7 +45,7 @@ def gen_op(rng):
     if r < 0.5:
         return (rng.choice(["add_string", "add_encoded_string"]), V.rand_string(rng, 10))
     if r < 0.9:
-        s = V.rand_string(rng, 8)
+        s = V.rand_string(rng, 8 if rng.random() < 0.97 else rng.choice([64, 255, 256, 1000]))
         rel = rng.random()
         L = len(s) if rel < 0.4 else len(s) + rng.randrange(1, 5) if rel < 0.7 else max(0, len(s) - rng.randrange(1, 4))
         return (rng.choice(["add_fixed_string", "add_fixed_encoded_string"]), s, L, rng.random() < 0.5)
